@@ -351,6 +351,9 @@ func (st *State) callExtern(g *G, fr *Frame, name string, fn *ssa.Function, args
 	case "time.After":
 		st.idCounter++
 		c := &ChanObj{Cap: 1, ID: st.idCounter, Timer: true, TimerD: args[0].(*Term), Label: "time.After@" + e.pos(pos), ElemT: sig.Results().At(0).Type().Underlying().(*types.Chan).Elem()}
+		if st.clock != nil {
+			c.At = Arith("+", st.clock, args[0].(*Term), true)
+		}
 		return ChanVal{C: c}, false
 	case "time.Now":
 		return st.fresh(sig.Results().At(0).Type(), "now", 5), false
@@ -515,6 +518,45 @@ func (st *State) callExtern(g *G, fr *Frame, name string, fn *ssa.Function, args
 			return Ite(found, i, BV(64, ^uint64(0))), false
 		}
 		st.fail("unsupported", "strings.Index form")
+		return nil, false
+	case "strings.TrimSpace":
+		sv := st.strArg(args[0])
+		if sv.Const {
+			return Str(strings.TrimSpace(sv.Str)), false
+		}
+		if sv.BS != nil {
+			// exact for strings without bytes >= 0x80 next to the trimmed ends; Unicode spaces (U+0085, U+00A0, U+2000..) are
+			// multi-byte and not treated as space here: inputs whose first or last byte is >= 0x80 are outside the encoding
+			n := StrLen(sv)
+			hi := func(b *Term) *Term { return Cmp(">=", b, BV(8, 0x80), false) }
+			edge := And(Cmp(">", n, BV(64, 0), true), Or(hi(StrByte(sv, BV(64, 0))), hi(StrByte(sv, Arith("-", n, BV(64, 1), true)))))
+			if st.branch(edge) {
+				st.fail("unsupported", "strings.TrimSpace: non-ASCII byte at an end of the string (stated bound)")
+			}
+			return bsTerm(bsTrimSet(sv.BS, isASCIISpace)), false
+		}
+		st.fail("unsupported", "strings.TrimSpace needs byte-vector strings")
+		return nil, false
+	case "strings.Cut":
+		// single-byte constant separator: split at the first occurrence
+		sv, sep := st.strArg(args[0]), st.strArg(args[1])
+		if sv.Const && sep.Const {
+			a, b, f := strings.Cut(sv.Str, sep.Str)
+			return TupleVal{Str(a), Str(b), Bool(f)}, false
+		}
+		if sep.Const && len(sep.Str) == 1 {
+			if st.branch(StrContains(sv, sep)) {
+				var i *Term
+				if sv.BS != nil {
+					i, _ = bsIndexByte(sv.BS, sep.Str[0])
+				} else {
+					i = fromInt(64, "(str.indexof "+sv.S+" "+sep.S+" 0)")
+				}
+				return TupleVal{StrSub(sv, BV(64, 0), i), StrSub(sv, Arith("+", i, BV(64, 1), true), StrLen(sv)), True}, false
+			}
+			return TupleVal{sv, Str(""), False}, false
+		}
+		st.fail("unsupported", "strings.Cut form")
 		return nil, false
 	case "strings.SplitN":
 		// only n == 2 with a single-byte separator: split at the first occurrence
